@@ -199,6 +199,8 @@ func main() {
 						case *ast.BlockStmt, *ast.FuncLit:
 							_ = x
 							return false // nested statements get their own points
+						case *ast.CaseClause, *ast.CommClause:
+							return false
 						case *ast.Ident:
 							if isGlobal(x) {
 								found = true
@@ -222,7 +224,7 @@ func main() {
 				visitBlock = func(list []ast.Stmt) {
 					for _, s := range list {
 						switch s.(type) {
-						case *ast.LabeledStmt, *ast.DeclStmt:
+						case *ast.LabeledStmt, *ast.DeclStmt, *ast.CaseClause, *ast.CommClause:
 							continue
 						}
 						if mentions(s) {
